@@ -18,6 +18,20 @@ const CATALOGUE: &[Plant] = &[
     Plant { name: "zero denominator", text: "@zq{1/0%g}", place: 0, dialect: None, kind: "division-by-zero", error: true, parse: true, focus: "1/0" },
     Plant { name: "empty value", text: "@zq{%g}", place: 0, dialect: None, kind: "empty-value", error: true, parse: true, focus: "{%g}" },
     Plant { name: "unit on cookware", text: "#zpot{1%kg}", place: 0, dialect: None, kind: "cookware-unit", error: true, parse: true, focus: "%kg" },
+    Plant { name: "unit on cookware (no separator)", text: "#zpot{2 large}", place: 0, dialect: Some(true), kind: "cookware-unit", error: true, parse: true, focus: "large" },
+    Plant { name: "unit on cookware (spaced)", text: "#zpot{ 1 % kg }", place: 0, dialect: None, kind: "cookware-unit", error: true, parse: true, focus: "% kg" },
+    Plant { name: "zero denominator (mixed)", text: "@zq{1 1/0}", place: 0, dialect: None, kind: "division-by-zero", error: true, parse: true, focus: "1/0" },
+    Plant { name: "zero denominator (cookware)", text: "#zpot{3/0}", place: 0, dialect: None, kind: "division-by-zero", error: true, parse: true, focus: "3/0" },
+    Plant { name: "empty value (locked)", text: "@zq{= %g}", place: 0, dialect: None, kind: "empty-value", error: true, parse: true, focus: "%g" },
+    Plant { name: "empty cookware alias", text: "#za|{}", place: 0, dialect: Some(true), kind: "empty-alias:cookware", error: true, parse: true, focus: "|" },
+    Plant { name: "multiple cookware aliases", text: "#za|zb|zc{}", place: 0, dialect: Some(true), kind: "multiple-aliases:cookware", error: true, parse: true, focus: "|zb|zc" },
+    Plant { name: "duplicate modifier (apart)", text: "@?-?zq{}", place: 0, dialect: Some(true), kind: "duplicate-modifier", error: true, parse: true, focus: "?-?" },
+    Plant { name: "dangling cookware reference", text: "#&znosuch{}", place: 0, dialect: Some(true), kind: "reference-not-found", error: true, parse: false, focus: "#&znosuch{}" },
+    Plant { name: "note on cookware reference", text: "#zpp{} and #&zpp{}(a note)", place: 0, dialect: Some(true), kind: "note-in-reference", error: true, parse: false, focus: "(a note)" },
+    Plant { name: "conflicting modifier on cookware reference", text: "#zpp{} and #&?zpp{}", place: 0, dialect: Some(true), kind: "ref-conflicting-modifiers", error: true, parse: false, focus: "&?" },
+    Plant { name: "dangling reference (case differs only in ASCII is fine, other name is not)", text: "@zqq{} and @&zqQx{}", place: 0, dialect: Some(true), kind: "reference-not-found", error: true, parse: false, focus: "@&zqQx{}" },
+    Plant { name: "timer without unit (single word form has none either)", text: "~zt{1/2}", place: 0, dialect: None, kind: "timer-missing-unit", error: true, parse: true, focus: "{1/2}" },
+    Plant { name: "timer unit not time (no separator)", text: "~zt{5 kg}", place: 0, dialect: Some(true), kind: "timer-unit-not-time", error: true, parse: false, focus: "kg" },
     Plant { name: "timer without unit", text: "~zt{5}", place: 0, dialect: None, kind: "timer-missing-unit", error: true, parse: true, focus: "{5}" },
     Plant { name: "timer without duration", text: "~ztimer{}", place: 0, dialect: Some(true), kind: "timer-missing-quantity", error: true, parse: true, focus: "{}" },
     Plant { name: "timer neither name nor quantity", text: "~{}", place: 0, dialect: Some(false), kind: "timer-neither-name-nor-quantity", error: true, parse: true, focus: "~{}" },
